@@ -95,6 +95,19 @@ def alias_check(parent_factory, cls, row, rows, value, rec, rowkey, case, k, ext
             rec.violation('assignment-through-alias-did-not-copy:%s' % wkind.split('-')[0], case,
                           {'written_as': wname, 'source_keeps': len(kept), 'target_has': len(got)}, row=rowkey)
             return
+        # a base datatype object (instead of text) written through this spelling reaches the same child, where the child is
+        # of a base datatype
+        if row.kind == 'leaf' and row.datatype in ('ST', 'ID', 'IS', 'SI', 'NM', 'TX', 'FT'):
+            from hl7apy.factories import datatype_factory
+            p2 = parent_factory()
+            obj = datatype_factory(row.datatype, value.split('^')[-1].split('&')[-1], getattr(p2, 'version'), 2)
+            setattr(p2, wname, obj)
+            got2 = p2.children.indexes.get(row.name, [])
+            rec.count('datatype_objects_written_through_aliases')
+            if len(got2) != 1 or len(p2.children.list) != 1:
+                rec.violation('datatype-object-through-alias-misplaced:%s' % wkind.split('-')[0], case,
+                              {'written_as': wname, 'children': [c.name for c in p2.children.list]}, row=rowkey)
+                return
         if row.card[1] == -1:
             # with repetitions: a write through any spelling replaces the first one, and every spelling then lists the same
             # children in the order the parent holds them
